@@ -260,3 +260,31 @@ def run(tier: str, budget: Budget, rnd, prop: str) -> StreamResult:
             if len(res.disagreements) >= 10:
                 break
     return res
+
+
+def replay(prop: str, payload: dict):
+    """re-run a recorded history on a fresh real object and compare the final bounds with a fresh object of the same knowledge"""
+    from incomplete_cooperative.game import IncompleteCooperativeGame
+    from corr_table import apply_line
+    inp = payload["input"]
+    n, v, comp = inp["n"], [Fraction(x) for x in inp["v"]], inp["computer"]
+    g = IncompleteCooperativeGame(n, computer(comp))
+    log = []
+    for line in inp["history"]:
+        w = line.split()
+        if w[0] == "new" or "->" in line:
+            if "->" in line:      # "compute … -> err; setknown K" : a raising compute followed by the harness's re-synchronisation
+                ans = apply_line(g, ["compute"])
+                K = [int(x) for x in line.split("setknown", 1)[1].split()[0].split(",")]
+                from incomplete_cooperative.coalitions import Coalition
+                g.set_known_values([float(v[k]) for k in K], [Coalition(k) for k in K])
+                log.append(f"{line}  (replayed: {ans})")
+            continue
+        log.append(f"{line} -> {apply_line(g, w)}")
+    Kn, L, U = dump_impl(g)
+    K = [c for c in range(2 ** n) if Kn[c]]
+    fresh = real_bounds(n, v, K, comp)
+    bad = isinstance(fresh, str) or fresh[1] != L or fresh[2] != U
+    if prop in ("C01", "C04") and not bad:
+        bad = any(not (L[c] <= v[c] <= U[c]) for c in range(2 ** n))
+    return bad, "\n".join(log[-10:] + [f"after the history: L={rlist(L)} U={rlist(U)}", f"fresh object, same knowledge: {fresh}"])
